@@ -68,8 +68,13 @@ def nodeOfJson (names : Array String) (j : Json) : Except String Node := do
     | .error _ => .ok []
   -- a split field must be a literal list
   let nested := (j.getObjValAs? Bool "wf").toOption.getD false
+  -- `State.current_combiner`: `self.name in comb` is a SUBSTRING test on the dotted key
+  let nameStr ← getStr j "name"
+  let combStrs := ((j.getObjValAs? (Array String) "combine").toOption.getD #[]).toList
+  let own := (combStrs.zip comb).filterMap fun (cs, k) =>
+    if (cs.splitOn nameStr).length > 1 then some k else none
   let nd : Node := { name := name, x := ← src "x", y := ← src "y", z := ← src "z", split := split, comb := comb,
-                     nested := nested }
+                     nested := nested, ownCombOverride := some own }
   for f in split.fields do
     match nd.src f with
     | .lst _ => pure ()
